@@ -116,7 +116,10 @@ def gen_program(rng, kind, ntx=None, small=False):
                     live[o] = True
             else:
                 o = rng.choice(oids)
-                if not any(op[1] == o for op in ops):
+                # (rarely) a second record for an oid already stored in this transaction: the
+                # last record of a transaction wins (_data_find, load)
+                if not any(op[1] == o for op in ops) or \
+                        (rng.random() < 0.25 and all(op[0] == 's' for op in ops if op[1] == o)):
                     n += 1
                     ops.append(['s', o, mkdata(o, n, rng).hex()])
                     live[o] = True
@@ -818,10 +821,13 @@ def recover_worker(conn, workdir, jobs):
     conn.close()
 
 
-def run_recover_jobs(jobs, tmp, nproc, watchdog=20.0):
+def run_recover_jobs(jobs, tmp, nproc, watchdog=6.0, max_timeouts=3, confirm=True):
     """jobs: list of (jid, image bytes). returns {jid: obs}; a job that makes no progress for
-    `watchdog` seconds is reported as status 'timeout' (its worker is killed and restarted)."""
+    `watchdog` seconds (a normal run takes milliseconds) is reported as status 'timeout' (its worker
+    is killed and restarted).  After `max_timeouts` of them the remaining jobs are abandoned
+    (status 'skipped'): the violation is established, the run must still end in reasonable time."""
     results = {}
+    ntimeouts = 0
     ctx = multiprocessing.get_context('fork')
     chunks = [jobs[i::nproc] for i in range(nproc)]
     workers = []
@@ -867,10 +873,26 @@ def run_recover_jobs(jobs, tmp, nproc, watchdog=20.0):
                 w['p'].kill()
                 w['p'].join(5)
                 results[w['cur']] = dict(status='timeout')
+                ntimeouts += 1
                 rest = [j for j in w['todo'] if j[0] != w['cur']]
                 workers.remove(w)
+                if ntimeouts >= max_timeouts:
+                    for x in workers:
+                        x['p'].kill()
+                        x['p'].join(5)
+                    workers = []
+                    break
                 if rest:
                     workers.append(start(w['wi'], rest))
+    if confirm:
+        # a time-out is only reported after the same image, run alone with a generous watchdog,
+        # again fails to end (a loaded machine must not produce a false alarm)
+        byid = dict(jobs)
+        for jid in [j for j, o in results.items() if o.get('status') == 'timeout']:
+            again = run_recover_jobs([(jid, byid[jid])], tmp, 1, watchdog=20.0, max_timeouts=1, confirm=False)
+            results[jid] = again[jid]
+    for (jid, _) in jobs:
+        results.setdefault(jid, dict(status='skipped'))
     return results
 
 
@@ -1163,6 +1185,9 @@ def run_recover_part(ck, files, nproc):
             obs = results.get((fi, di))
             if obs is None:
                 raise InfraError('no result for recover job %r' % ((fi, di),))
+            if obs['status'] == 'skipped':
+                ck.count('recover:skipped-after-timeouts')
+                continue
             ds, de = damage_range(raw, dmg)
             nt = dmg['kind'] != 'none' and strictly_inside(txns, ds, de)
             key = dict(part='recover', prog=f['prog'], dmg=dmg)
@@ -1204,7 +1229,7 @@ def shrink_recover(ck, key, sig, nproc):
             return False
         if d2['kind'] == 'win' and d2['off'] >= len(raw):
             return False
-        res = run_recover_jobs([((0, 0), apply_damage(raw, d2))], ck.tmp, 1, watchdog=10.0)
+        res = run_recover_jobs([((0, 0), apply_damage(raw, d2))], ck.tmp, 1, watchdog=5.0)
         v = judge_recover(raw, txns, orig_view(raw, txns), d2, res[(0, 0)])
         return v[0] == 'violation' and v[1] == sig
     try:
